@@ -66,3 +66,12 @@ func StdInbound(nonce uint64, to int, amt *big.Int) *InMsg {
 }
 
 func sdkInt(v int64) sdkmath.Int { return sdkmath.NewInt(v) }
+
+// NearModuleRecipient: the module address in the low 20 bytes but non-zero padding - NOT the module's 32-byte name.
+func NearModuleRecipient(tag byte) []byte {
+	b := append([]byte(nil), modulePadded...)
+	for j := 0; j < 12; j++ {
+		b[j] = tag + byte(j)
+	}
+	return b
+}
